@@ -1,5 +1,5 @@
 //! C09 - DP rewriting is exact when noise and clipping are inactive (DESIGN 3, C09).
-use simcommon::engine::{DrawMode, DrawPlan};
+use simcommon::engine::{DrawMode, DrawPlan, ResultSet};
 use crate::ir;
 use crate::oracle::*;
 use crate::pipeline::{self, CompileError};
@@ -165,10 +165,55 @@ pub fn check(sc: &Scenario, ex: &mut Exec) -> (Verdict, Option<String>) {
     let protected_in_from = q.from.iter().filter(|f| sc.is_protected(&f.table)).count();
     let rowpriv_join = row_privacy && protected_in_from >= 2;
 
-    let key_idx_o: Vec<usize> = q.keys.iter().filter_map(|k| orig_s.col(&k.alias)).collect();
-    let key_idx_d: Vec<usize> = q.keys.iter().filter_map(|k| dp.col(&k.alias)).collect();
+    let mut key_idx_o: Vec<usize> = q.keys.iter().filter_map(|k| orig_s.col(&k.alias)).collect();
+    let mut key_idx_d: Vec<usize> = q.keys.iter().filter_map(|k| dp.col(&k.alias)).collect();
     let mut violations = vec![];
-    if key_idx_d.len() != q.keys.len() || q.aggs.iter().any(|a| dp.col(&a.alias).is_none()) {
+    // output keys that are not unique (a SELECT alias shadowing the grouping column): rows are
+    // matched as a multiset - within one key value the rows of each side are ranked by their
+    // aggregate values and the rank joins the key; surplus DP rows that read zero (declared public
+    // values without data, mapped onto a value that has data) are set aside first
+    let (mut orig_s, mut orig_p, mut dp) = (orig_s, orig_p, dp);
+    if q.keys.iter().any(|k| k.group_expr.is_some()) && key_idx_d.len() == q.keys.len() && q.aggs.iter().all(|a| dp.col(&a.alias).is_some()) {
+        ex.stats.probe("non_unique_output_keys");
+        let rank = |rs: &mut ResultSet, kidx: &[usize], counts: Option<&std::collections::BTreeMap<Vec<String>, usize>>| -> std::collections::BTreeMap<Vec<String>, usize> {
+            let aidx: Vec<usize> = q.aggs.iter().filter_map(|a| rs.col(&a.alias)).collect();
+            let vals = |r: &Vec<Cell>| -> Vec<f64> { aidx.iter().map(|i| num(&r[*i]).unwrap_or(f64::NEG_INFINITY)).collect() };
+            let mut groups: std::collections::BTreeMap<Vec<String>, Vec<Vec<Cell>>> = Default::default();
+            for r in rs.rows.drain(..) {
+                groups.entry(kidx.iter().map(|i| r[*i].key()).collect()).or_default().push(r);
+            }
+            let mut n = std::collections::BTreeMap::new();
+            for (k, mut rows) in groups {
+                if let Some(c) = counts {
+                    let want = *c.get(&k).unwrap_or(&0);
+                    if want > 0 {
+                        while rows.len() > want {
+                            match rows.iter().position(|r| vals(r).iter().all(|v| *v == 0.0 || *v == f64::NEG_INFINITY)) {
+                                Some(i) => {
+                                    rows.remove(i);
+                                }
+                                None => break,
+                            }
+                        }
+                    }
+                }
+                rows.sort_by(|a, b| vals(a).partial_cmp(&vals(b)).unwrap_or(std::cmp::Ordering::Equal));
+                n.insert(k, rows.len());
+                for (i, mut r) in rows.into_iter().enumerate() {
+                    r.push(Cell::Int(i as i64));
+                    rs.rows.push(r);
+                }
+            }
+            rs.columns.push("__rank".into());
+            n
+        };
+        let counts = rank(&mut orig_s, &key_idx_o, None);
+        rank(&mut orig_p, &key_idx_o, None);
+        rank(&mut dp, &key_idx_d, Some(&counts));
+        key_idx_o.push(orig_s.columns.len() - 1);
+        key_idx_d.push(dp.columns.len() - 1);
+    }
+    if key_idx_d.len() < q.keys.len() || q.aggs.iter().any(|a| dp.col(&a.alias).is_none()) {
         violations.push(Violation {
             property: "C09".into(),
             invariant: "schema".into(),
